@@ -395,7 +395,6 @@ func ExpectExif(rec *gen.Rec, imageType string) Obs {
 	return o
 }
 
-
 // Flatten turns any struct value into an observation (exported fields, recursively).
 func Flatten(v interface{}) Obs {
 	o := Obs{}
